@@ -128,6 +128,9 @@ func runHarness(p *Program, hs HarnessSpec, timeoutMs int) *harnessResult {
 	if v, ok := hs.Cfg["maxseconds"]; ok {
 		fmt.Sscan(v, &budget)
 	}
+	if v := os.Getenv("VERIF_MAXSECONDS"); v != "" { // validation runs: cap every harness
+		fmt.Sscan(v, &budget)
+	}
 	e.Deadline = time.Now().Add(time.Duration(budget) * time.Second)
 	func() {
 		defer func() {
